@@ -64,6 +64,13 @@ func (k *Keys) GetCursorPos() (x, y int) {
 			return disable()
 		}
 
+		// Anything read along with the answer is user input.
+		if _, remain := k.extractCursorPos(cursor); len(remain) > 0 {
+			k.mutex.RLock()
+			k.buf = append(k.buf, remain...)
+			k.mutex.RUnlock()
+		}
+
 		break
 	}
 
